@@ -101,3 +101,46 @@ fn lossy_passthrough_and_low_indices() {
     }
     vk::vk_cover!(i >= 16, "high index");
 }
+
+/// exactness at the edges of the 256-colour table, concretely (first and last cube entry, first
+/// and last grey, and their neighbours): each maps to itself — a cheap twin of the Verus proof of
+/// find_xterm_match that still decides when Z3 runs out of resources on a scan that stops early.
+/// (All 240 entries at once, or a symbolic index, exceed 7 GB in CBMC.)
+fn exact_at(i: usize) {
+    let c = crate::XTERM_COLORS[i];
+    let j = crate::rgb_to_xterm(c).0 as usize;
+    assert!(j >= 16 && j <= i && crate::XTERM_COLORS[j] == c, "rgb_to_xterm: a colour of the 256-colour table maps to the first index that holds it");
+}
+
+#[cfg_attr(kani, kani::proof, kani::unwind(260))]
+#[cfg_attr(not(kani), test)]
+fn lossy_xterm_table_edges_lo() {
+    exact_at(16);
+    exact_at(17);
+    exact_at(231);
+}
+
+#[cfg_attr(kani, kani::proof, kani::unwind(260))]
+#[cfg_attr(not(kani), test)]
+fn lossy_xterm_table_edges_hi() {
+    exact_at(232);
+    exact_at(254);
+    exact_at(255);
+}
+
+/// nearest, for an arbitrary colour: no table entry 16..=255 is closer than the one returned, and
+/// no earlier entry is as close (cross-engine twin of verus:lossy::find_xterm_match)
+#[cfg_attr(kani, kani::proof, kani::unwind(260))]
+#[cfg_attr(not(kani), test)]
+fn lossy_xterm_nearest_any() {
+    let c = any_rgb();
+    let j = crate::rgb_to_xterm(c).0 as usize;
+    assert!(j >= 16, "rgb_to_xterm never answers with one of the 16 user-defined colours");
+    let dj = crate::distance(c, crate::XTERM_COLORS[j]);
+    let mut k = 16usize;
+    while k < 256 {
+        let dk = crate::distance(c, crate::XTERM_COLORS[k]);
+        assert!(dj <= dk && (k >= j || dj < dk), "rgb_to_xterm returns the first nearest entry of the 256-colour table");
+        k += 1;
+    }
+}
